@@ -8,7 +8,7 @@ Model:
 Values are lists of ints encodable in the attribute's rep code (USHORT 15, UNORM 16, ULONG 17, UVARI 18) or bytes for IDENT 19.
 """
 
-ROLE = dict(ABSATR=0x00, ATTRIB=0x20, INVATR=0x40, OBJECT=0x60, SET=0xe0)
+ROLE = dict(ABSATR=0x00, ATTRIB=0x20, INVATR=0x40, OBJECT=0x60, RDSET=0xa0, RSET=0xc0, SET=0xe0)      # RP66V1 3.2.2.1 figure 3-2
 USHORT, UNORM, ULONG, UVARI, IDENT = 15, 16, 17, 18, 19
 
 
